@@ -26,6 +26,12 @@ pub enum Universe {
     /// en-passant aliasing family: capturer pawn + double-pushed pawn beside it (ep set) + one more pawn of either
     /// colour anywhere on the capturer's file or the victim's file; kings on a few fixed safe squares; both colours
     UEA,
+    /// en passant x every kind of next move: a capturer/victim pawn pair with the en-passant flag set, and for the side
+    /// to move one of: a pawn on its 7th rank (each file) with nothing / an enemy rook / an enemy knight on each adjacent
+    /// last-rank square (promotion, capture-promotion); king on e1 with a/h/both rooks and rights (castling); a pawn on its
+    /// 2nd rank beside an enemy pawn on the 4th (a new double step creating a new en-passant file). Kings on fixed safe
+    /// squares; both colours. The successor of EVERY move kind must have dropped (or replaced) the en-passant file.
+    UEX,
     /// castling x en passant product: kings on e1/e8, every (rook subset, rights subset) of UC, a capturer/victim pawn pair
     /// on every file pair, with the en-passant flag set and not set, both colours: all (rights, ep) state bytes on one board
     UCE,
@@ -52,6 +58,7 @@ impl Universe {
             Universe::UCK { extras } => format!("UCK+{}", extras),
             Universe::UEA => "UEA".into(),
             Universe::UCE => "UCE".into(),
+            Universe::UEX => "UEX".into(),
             Universe::UPIN => "UPIN".into(),
             Universe::UDBL => "UDBL".into(),
         }
@@ -61,7 +68,7 @@ impl Universe {
     pub fn units(&self) -> usize {
         match self {
             Universe::U2 | Universe::U3 | Universe::U4 { .. } | Universe::UE { .. } | Universe::UCK { .. } | Universe::UPIN | Universe::UDBL => 64,
-            Universe::UEA => 8,
+            Universe::UEA | Universe::UEX => 8,
             Universe::UC { .. } | Universe::UCE => 81,
             Universe::UP => 8,
         }
@@ -100,6 +107,7 @@ impl Universe {
             Universe::UP => up_unit(unit as i8, f),
             Universe::UCK { extras } => uck_unit(unit as u8, *extras, f),
             Universe::UEA => uea_unit(unit as i8, f),
+            Universe::UEX => uex_unit(unit as i8, f),
             Universe::UPIN => upin_unit(unit as u8, f),
             Universe::UDBL => udbl_unit(unit as u8, f),
             Universe::UCE => {
@@ -479,6 +487,93 @@ fn uea_unit(cf: i8, f: &mut dyn FnMut(Pos)) {
                         }
                     }
                 }
+            }
+        }
+    }
+}
+
+fn uex_unit(cf: i8, f: &mut dyn FnMut(Pos)) {
+    let mut emit = |q: Pos| {
+        if q.sane() && q.engine_ep_file() != 8 {
+            f(q);
+            let m = q.mirror();
+            if m.sane() && m.engine_ep_file() != 8 {
+                f(m);
+            }
+        }
+    };
+    let king_sets: [(u8, u8); 3] = [(sq(0, 4), sq(7, 4)), (sq(2, 0), sq(5, 7)), (sq(2, 7), sq(5, 0))];
+    for df in [-1i8, 1] {
+        let vf = cf + df;
+        if !(0..8).contains(&vf) {
+            continue;
+        }
+        let (cap, vic) = (sq(4, cf), sq(4, vf));
+        let reserved = [cap, vic, sq(5, vf), sq(6, vf)];
+        let base = |wk: u8, bk: u8| -> Option<Pos> {
+            if reserved.contains(&wk) || reserved.contains(&bk) {
+                return None;
+            }
+            let mut p = Pos::empty();
+            p.b[wk as usize] = WK;
+            p.b[bk as usize] = BK;
+            p.b[cap as usize] = code(P, true);
+            p.b[vic as usize] = code(P, false);
+            p.white = true;
+            p.ep = Some(sq(5, vf));
+            Some(p)
+        };
+        for (wk, bk) in king_sets {
+            let Some(p) = base(wk, bk) else { continue };
+            // (a) promotion and capture-promotion as the next move
+            for pf in 0..8i8 {
+                let ps = sq(6, pf);
+                if p.b[ps as usize] != 0 || reserved.contains(&ps) || p.b[sq(7, pf) as usize] != 0 {
+                    continue;
+                }
+                let mut q = p;
+                q.b[ps as usize] = code(P, true);
+                emit(q);
+                for side in [-1i8, 1] {
+                    let tf = pf + side;
+                    if !(0..8).contains(&tf) || q.b[sq(7, tf) as usize] != 0 {
+                        continue;
+                    }
+                    for enemy in [R, N] {
+                        let mut r = q;
+                        r.b[sq(7, tf) as usize] = code(enemy, false);
+                        emit(r);
+                    }
+                }
+            }
+            // (c) a new double step beside an enemy pawn (the en-passant file is replaced, not just dropped)
+            for nf in 0..8i8 {
+                for side in [-1i8, 1] {
+                    let ef = nf + side;
+                    if !(0..8).contains(&ef) {
+                        continue;
+                    }
+                    let (ns, es) = (sq(1, nf), sq(3, ef));
+                    if p.b[ns as usize] != 0 || p.b[es as usize] != 0 || p.b[sq(2, nf) as usize] != 0 || p.b[sq(3, nf) as usize] != 0 || reserved.contains(&ns) || reserved.contains(&es) {
+                        continue;
+                    }
+                    let mut q = p;
+                    q.b[ns as usize] = code(P, true);
+                    q.b[es as usize] = code(P, false);
+                    emit(q);
+                }
+            }
+        }
+        // (b) castling as the next move: king e1, rooks a1/h1, black king e8 or a far square
+        for bk in [sq(7, 4), sq(7, 0), sq(5, 7)] {
+            let Some(p) = base(sq(0, 4), bk) else { continue };
+            for (rooks, rights) in [(vec![sq(0, 7)], RIGHT_WK), (vec![sq(0, 0)], RIGHT_WQ), (vec![sq(0, 0), sq(0, 7)], RIGHT_WK | RIGHT_WQ)] {
+                let mut q = p;
+                for r in &rooks {
+                    q.b[*r as usize] = code(R, true);
+                }
+                q.rights = rights;
+                emit(q);
             }
         }
     }
